@@ -72,7 +72,9 @@ def rule_sub1(ctx: Ctx) -> RuleResult:
                                 if sig in seen:
                                     continue
                                 seen.add(sig)
-                                r.ob(False, lambda e=e, bad=bad, spec=spec, kind=kind, cfg=cfg, p=p, S=S: mk_finding(
+                                # (whose variable it is does not depend on what any call on the path returns: the finding stands also on a
+                                # path through code the engine could not resolve)
+                                r.ob(False, lambda e=e, bad=bad, spec=spec, kind=kind, cfg=cfg, p=p, S=S: _structural(mk_finding)(
                                     "SUB-1", spec, kind, cfg, p,
                                     "the handler %s '%s', a variable of %s: that scope is entered once per application of the operator, not once per subscription "
                                     "(%s is), so a second subscription of the same piped observable starts from what the first one left (%s)" % (
@@ -84,6 +86,16 @@ def rule_sub1(ctx: Ctx) -> RuleResult:
             r.groups.add((site.short,))
     r.require_instances(ctx.scaled(30))
     return r
+
+
+def _structural(make):
+    def run(*a, **kw):
+        f = make(*a, **kw)
+        if isinstance(f.detail, dict):
+            f.detail.pop("unresolved", None)
+            f.detail["structural"] = True
+        return f
+    return run
 
 
 def rule_sub2(ctx: Ctx) -> RuleResult:
